@@ -1009,7 +1009,7 @@ func runCase(c *caseT) (outs []*output, f *failure) {
 }
 
 func TestPropWindowAggregate(t *testing.T) {
-	rec.Check(t, 25000, 150000, func(t *rapid.T) {
+	rec.Check(t, 25000, 400000, func(t *rapid.T) {
 		c := genCase(t)
 		if staleFilterSignature(c) && ev.KnownOpen("C20", knownStaleFilter) {
 			rec.ExcludedKnown(knownStaleFilter)
